@@ -80,6 +80,11 @@ def check(ctx):
     sorted_lists(ctx, sorted_locals)
     containers(ctx)
     G.module_template(ctx, "C06.5")
+    # the validation walks the derive / attribute maps in hash order and merges what it finds into per-path entries: the RESULT is independent of that
+    # order only because an entry is found by its own path and extended as a set (C11's merge instance, evaluated here under C06's id)
+    from . import c11 as _c11
+    with ctx.only(lambda k: k == "report-iff-unknown"):
+        _c11.check(ctx)
 
 
 def hash_order(ctx, floors=True):
